@@ -4,6 +4,7 @@ import (
 	"fmt"
 	"math"
 	"reflect"
+	"strings"
 	"testing"
 
 	"go.1password.io/spg"
@@ -20,16 +21,16 @@ import (
 // with the same public field values, fed the same stream".
 
 type c15Op struct {
-	Op     string   `json:"op"`     // set | call
-	Target int      `json:"target"` // 0..2 character recipes, 3..4 wordlist recipes
-	Field  string   `json:"field,omitempty"`
-	Int    int      `json:"int,omitempty"`
-	Str    string   `json:"str,omitempty"`
-	Sets   []string `json:"sets,omitempty"`
+	Op     string       `json:"op"`     // set | call
+	Target int          `json:"target"` // 0..2 character recipes, 3..4 wordlist recipes
+	Field  string       `json:"field,omitempty"`
+	Int    int          `json:"int,omitempty"`
+	Str    string       `json:"str,omitempty"`
+	Sets   []string     `json:"sets,omitempty"`
 	Sep    *gen.SepSpec `json:"sep,omitempty"`
-	Method string   `json:"method,omitempty"`
-	Script []uint32 `json:"script,omitempty"`
-	Key    uint64   `json:"key,omitempty"`
+	Method string       `json:"method,omitempty"`
+	Script []uint32     `json:"script,omitempty"`
+	Key    uint64       `json:"key,omitempty"`
 }
 
 type c15Case struct {
@@ -164,6 +165,20 @@ func c15Run(c c15Case) error {
 					r.RequireSets = ns
 					callerSets[op.Target] = ns
 					m.RequireSets = append([]string(nil), op.Sets...)
+				case "RequireSetsSameShape":
+					// same number of sets, same sizes, different members/overlap
+					ns := make([]string, len(m.RequireSets))
+					for i, set := range m.RequireSets {
+						cs := oracle.Chars(set)
+						out := ""
+						for j := range cs {
+							out += gen.CharPool[(op.Int+i*3+j)%len(gen.CharPool)]
+						}
+						ns[i] = out
+					}
+					r.RequireSets = ns
+					callerSets[op.Target] = ns
+					m.RequireSets = append([]string(nil), ns...)
 				case "RequireSetsElem":
 					if len(callerSets[op.Target]) > 0 {
 						i := op.Int % len(callerSets[op.Target])
@@ -212,6 +227,49 @@ func c15Run(c c15Case) error {
 		}
 		if !reflect.DeepEqual(got, want) {
 			return fmt.Errorf("step %d: %s on recipe %d gave %+v; a freshly constructed recipe with the same field values and the same random bytes gives %+v", step, method, op.Target, got, want)
+		}
+		// the result is a function of the *current* field values alone: compare
+		// with the reference model as well (a package-level cache would fool the
+		// fresh-copy comparison, because the fresh copy shares the package)
+		if isChar && !got.Panic {
+			m := mirror[op.Target]
+			switch method {
+			case "Alphabet":
+				if want := strings.Join(m.Alphabet(), ""); got.Str != want {
+					return fmt.Errorf("step %d: Alphabet() = %q, the current field values give %q", step, got.Str, want)
+				}
+			case "Entropy", "Generate":
+				if method == "Generate" && got.Tok == "" {
+					break
+				}
+				if m.EmptiedRequired() == 0 && len(m.AlphabetSet()) > 0 && m.Length >= 1 {
+					want := oracle.Log2Big(m.CountIE())
+					if gotE := math.Float32frombits(got.Bits); !oracle.Close32(gotE, want, 2, 0) {
+						return fmt.Errorf("step %d: %s reports entropy %v, the current field values give %.6f (stale or history-dependent result)", step, method, gotE, want)
+					}
+				}
+			case "SuccessProbability":
+				if pr, ok := m.PSuccess(); ok && m.Length >= 1 && pr.Sign() > 0 {
+					hu := oracle.Log2Big(m.Universe())
+					lg, lw := math.Log2(float64(math.Float32frombits(got.Bits))), oracle.Log2Rat(pr)
+					if math.Abs(lg-lw) > 3*oracle.Ulp32(hu)+1e-6 {
+						return fmt.Errorf("step %d: SuccessProbability() = %v, the current field values give %v (stale or history-dependent result)", step, math.Float32frombits(got.Bits), pr)
+					}
+				}
+			}
+			if method == "Generate" && got.Tok != "" {
+				// the password honours the current fields
+				var sb strings.Builder
+				for _, part := range strings.Split(strings.TrimSuffix(got.Tok, "|"), "|") {
+					f := strings.SplitN(part, ":", 3)
+					if len(f) == 3 {
+						sb.WriteString(f[2])
+					}
+				}
+				if ok, why := m.Valid(sb.String()); !ok && !strings.Contains(sb.String(), "|") && !strings.Contains(sb.String(), ":") {
+					return fmt.Errorf("step %d: Generate returned %q, which the current field values do not allow (%s)", step, sb.String(), why)
+				}
+			}
 		}
 		// (i) nothing the caller owns was modified
 		if isChar {
@@ -272,12 +330,14 @@ func c15Gen(t *rapid.T) c15Case {
 		if rapid.IntRange(0, 2).Draw(t, "kind") == 0 {
 			op.Op = "set"
 			if op.Target < nC {
-				op.Field = rapid.SampledFrom([]string{"Length", "Allow", "Require", "Exclude", "AllowChars", "ExcludeChars", "RequireSets", "RequireSetsElem"}).Draw(t, "field")
+				op.Field = rapid.SampledFrom([]string{"Length", "Allow", "Require", "Exclude", "AllowChars", "ExcludeChars", "RequireSets", "RequireSetsElem", "RequireSetsSameShape", "RequireSetsSameShape"}).Draw(t, "field")
 				switch op.Field {
 				case "Length":
 					op.Int = rapid.IntRange(0, 12).Draw(t, "len")
 				case "Allow", "Require", "Exclude":
 					op.Int = int(gen.Flags(t, "flag", 30))
+				case "RequireSetsSameShape":
+					op.Int = rapid.IntRange(0, 29).Draw(t, "shift")
 				case "AllowChars", "ExcludeChars", "RequireSetsElem":
 					n := rapid.IntRange(0, 4).Draw(t, "n")
 					for j := 0; j < n; j++ {
